@@ -583,7 +583,11 @@ func (c *codegen) elemFootprint1(k fnKey) ([][]string, bool) {
 					switch f.Name {
 					case "copy", "clear", "append":
 						if len(x.Args) > 0 {
-							written(x.Args[0])
+							if ix, isIx := stripParens(x.Args[0]).(*ast.IndexExpr); isIx && f.Name == "append" {
+								written(ix.X) // code_cblift.go: `X[i] = append(X[i], e)` writes (a window that is the value of) an element of X
+							} else {
+								written(x.Args[0])
+							}
 						}
 					}
 					break
